@@ -307,7 +307,16 @@ class DataLoader(object):
                 - If `return_in_order == True`, return a single @ref MessageData object containing all message types in
                   the order that they were recorded.
         """
-        return self._read(*args, **kwargs)
+        # A call that raises (for example a time range on a log without P1 time) must not leave the cache entries it
+        # created behind: they are empty or partly filled, and a later call with the same arguments would be answered from
+        # them instead of raising again.
+        cached_data = dict(self.data)
+        try:
+            return self._read(*args, **kwargs)
+        except Exception:
+            self.data.clear()
+            self.data.update(cached_data)
+            raise
 
     def _read(self,
               message_types: Union[Iterable[MessageType], MessageType] = None,
